@@ -90,16 +90,17 @@ func dev(names []string) {
 			fmt.Println(fi.FullName(), ": no contract")
 			continue
 		}
-		r := prog.VerifyFuncRebinding(fi, func(obs []*vc.Obligation) bool {
+		r := prog.VerifyFuncRebinding(fi, func(obs []*vc.Obligation) int {
+			nfail := 0
 			for _, sr := range vc.SolveAll(obs, dir, 20, 8) {
 				if sr.Ob.MustFail || sr.Ob.Kind == "aux" || sr.Ob.ThoroughOnly {
 					continue
 				}
 				if sr.Status != "unsat" {
-					return false
+					nfail++
 				}
 			}
-			return true
+			return nfail
 		})
 		fmt.Printf("== %s (ints %s, safety %v): %d obligations\n", r.Func, r.IntMode, r.Safety, len(r.Obligations))
 		for _, u := range r.Unsupported {
